@@ -25,7 +25,7 @@ from typing import Optional, Tuple, Union, cast
 from .asn1 import ASN1DecodeError, ObjectIdentifier, der_encode, der_decode
 from .crypto import RSAPrivateKey, RSAPublicKey
 from .misc import all_ints
-from .packet import MPInt, String, SSHPacket
+from .packet import MPInt, PacketDecodeError, String, SSHPacket
 from .public_key import SSHKey, SSHOpenSSHCertificateV01, KeyExportError
 from .public_key import register_public_key_alg, register_certificate_alg
 from .public_key import register_x509_certificate_alg
@@ -213,6 +213,9 @@ class RSAKey(SSHKey):
         iqmp = packet.get_mpint()
         p = packet.get_mpint()
         q = packet.get_mpint()
+
+        if p < 2 or q < 2:
+            raise PacketDecodeError('Invalid RSA private key')
 
         return n, e, d, p, q, d % (p-1), d % (q-1), iqmp
 
